@@ -94,8 +94,13 @@ where
         loop {
             let yielded_count = self.yielded_counter.current();
             match begin_idx.cmp(&yielded_count) {
-                // begin_idx==yielded_count => it is our job to provide the items
-                Ordering::Equal => return Some(begin_idx),
+                // begin_idx==yielded_count => it is our job to provide the items, unless the iteration is over
+                Ordering::Equal => {
+                    return match self.completed.load(atomic::Ordering::SeqCst) {
+                        true => None,
+                        false => Some(begin_idx),
+                    }
+                }
 
                 Ordering::Less => return None,
 
@@ -115,6 +120,9 @@ where
             match item_idx.cmp(&yielded_count) {
                 // item_idx==yielded_count => it is our job to provide the item
                 Ordering::Equal => {
+                    if self.completed.load(atomic::Ordering::SeqCst) {
+                        return None;
+                    }
                     // SAFETY: no other thread has the valid condition to iterate, they are waiting
                     let next = unsafe { self.mut_iter() }.next();
                     match next.is_some() {
@@ -167,7 +175,6 @@ where
     }
 
     fn early_exit(&self) {
-        self.counter().store(usize::MAX);
         self.completed.store(true, atomic::Ordering::SeqCst);
     }
 }
